@@ -307,6 +307,8 @@ def g_scalar(rng, t, depth=0):
     if t in ('real32', 'real64'):
         x = rng.choice([0.0, -0.0, 1.0, 1.5, -2.25, 42.0, 0.1, 1e10, 1e300 if t == 'real64' else 1e30, 5e-324,
                         float('inf'), float('-inf')])
+        if rng.random() < 0.02:
+            x = float('nan')          # K only: the property excludes NaN, the oracle skips such cases
         return {'V': 'float', 't': t.capitalize(), 'x': x}
     if t == 'datetime':
         return {'V': 'dt', 's': rng.choice(DATETIMES)}
@@ -336,7 +338,7 @@ def g_keyvalue(rng, depth):
     return {'V': 'str', 's': 'leaf'}
 
 
-def g_keybindings(rng, depth):
+def g_keybindings(rng, depth, unnamed=False):
     n = rng.choice([0, 1, 1, 2, 2, 3])
     names = rng.sample(NAME_POOL, n)
     out, seen = [], set()
@@ -345,11 +347,13 @@ def g_keybindings(rng, depth):
             continue
         seen.add(nm.casefold())
         out.append([nm, g_keyvalue(rng, depth)])
+    if unnamed and rng.random() < 0.06:
+        out.insert(rng.randint(0, len(out)), [None, g_keyvalue(rng, 0)])   # the unnamed keybinding DSP0201 allows
     return out
 
 
 def g_instancename(rng, depth=1):
-    return {'K': 'CIMInstanceName', 'classname': g_name(rng), 'keybindings': g_keybindings(rng, depth),
+    return {'K': 'CIMInstanceName', 'classname': g_name(rng), 'keybindings': g_keybindings(rng, depth, True),
             'host': rng.choice(HOSTS), 'namespace': rng.choice(NAMESPACES)}
 
 
@@ -516,7 +520,8 @@ def v_recase(rng, spec):
                 n[f] = recase_str(rng, n[f])
             elif f in ('keybindings', 'scopes') or (n['K'] == 'NocaseDict' and f == 'items'):
                 for kv in n[f] or []:
-                    kv[0] = recase_str(rng, kv[0])
+                    if kv[0] is not None:
+                        kv[0] = recase_str(rng, kv[0])
     walk(s, fn, rng)
     return s
 
@@ -568,9 +573,16 @@ def mutate_value(rng, v, depth=0):
     if v is None:
         return {'V': 'str', 's': 'was-none'}
     if 'K' in v:
+        r = rng.random()
+        if r < 0.12:
+            return {'V': 'str', 's': 'was-object'}            # another kind of value: must compare unequal, not raise
+        if r < 0.24:
+            return g_classname(rng) if v['K'] != 'CIMClassName' else g_instancename(rng, 0)
         return v_mutate(rng, v)
     t = v['V']
     if t == 'str':
+        if rng.random() < 0.1:
+            return rng.choice([g_classname(rng), g_instancename(rng, 0), g_instance(rng, 0)])
         return rng.choice([{'V': 'str', 's': v['s'] + 'x'}, {'V': 'str', 's': v['s'].swapcase() or 'Q'}, None])
     if t == 'char16':
         return {'V': 'char16', 's': 'b' if v['s'] != 'b' else 'c'}
@@ -599,6 +611,9 @@ def mutate_value(rng, v, depth=0):
     return v
 
 
+_MUTATED = []      # which attributes the mutations of the current case touched (input-distribution statistics)
+
+
 def v_mutate(rng, spec):
     """change ONE attribute of ONE (possibly nested) object of the tree"""
     s = copy.deepcopy(spec)
@@ -612,6 +627,7 @@ def v_mutate(rng, spec):
         f = 'items'
     else:
         f = rng.choice(FIELDS[k])
+    _MUTATED.append(k + '.' + f)
     v = n.get(f)
     if f in NAME_ATTRS:
         opts = [(v or '') + 'x', g_name(rng)]
@@ -685,11 +701,12 @@ def gen_case(rng):
     """a triple of specs (a, b, c): b a variant of a, c a variant of b (or of a)"""
     kind, gen = rng.choice(TOP)
     a = gen(rng)
+    del _MUTATED[:]
     vb, fb = rng.choice(VARIANTS)
     b = fb(rng, a)
     vc, fc = rng.choice(VARIANTS)
     c = fc(rng, b if rng.random() < 0.7 else a)
-    return {'mode': 'cmp', 'kind': kind, 'variants': [vb, vc], 'specs': [a, b, c]}
+    return {'mode': 'cmp', 'kind': kind, 'variants': [vb, vc], 'specs': [a, b, c], 'mutated': list(_MUTATED)}
 
 
 # ----------------------------------------------------------------------------------------------- cmp cases
@@ -941,7 +958,11 @@ def eval_copy(case, run=None):
         ids2 = Ids()
         ids2.map = dict(ids.map)
         ids2.keep = list(ids.keep)
-        r['shape'] = renumber(enc(c, ids2), base)
+        try:
+            r['shape'] = renumber(enc(c, ids2), base)
+        except Exception as e:  # noqa   the copy cannot even be read (e.g. an attribute was lost)
+            out['hows'][how] = {'exc': common.exc_json(e), 'stage': 'reading the copy'}
+            continue
         try:
             r['eq'] = [bool(a == c), bool(c == a), bool(a != c), hash(a) == hash(c)]
         except Exception as e:  # noqa
@@ -1034,8 +1055,8 @@ def _register_module():
 def run(run):
     _register_module()
     rng = run.rng
-    n_cmp = 120000 if run.thorough else 10000
-    n_copy = 25000 if run.thorough else 2500
+    n_cmp = 100000 if run.thorough else 10000
+    n_copy = 20000 if run.thorough else 2500
     run.rule = ('cmp: seeded random object of one of 11 kinds (9 CIM classes, CIMDateTime, NocaseDict; nesting depth <= 3; '
                 'names from a 24-name pool with case variants and non-ASCII spellings), then b = variant(a), c = variant(b|a) '
                 'with variant in {same, recase, reorder, numeric retype, one-attribute mutation (possibly nested), combinations}; '
@@ -1088,6 +1109,8 @@ def _cmp_batch(run, cases):
         for v in case['variants']:
             run.count('cmp:variant:' + v)
         run.count('cmp:size:%s' % _size_class(ev['encs'][0]))
+        for mf in case.get('mutated', []):
+            run.count('cmp:mutated:' + mf)
         nan = any(has_nan(e) for e in ev['encs'])
         if nan:
             run.count('cmp:has_nan')
